@@ -224,7 +224,8 @@ def audit_axioms(audit_module_file):
     if r.returncode != 0:
         return {}, text
     thms = {}
-    for m in re.finditer(r"'([^']+)' (does not depend on any axioms|depends on axioms: \[([^\]]*)\])", text):
+    # the name may itself end in primes (foo'), so take everything up to the LAST quote before the verdict on that line
+    for m in re.finditer(r"^'(.+)' (does not depend on any axioms|depends on axioms: \[([^\]]*)\])", text, re.M):
         axs = [a.strip() for a in (m.group(3) or "").replace("\n", " ").split(",") if a.strip()]
         thms[m.group(1)] = axs
     return thms, None
@@ -368,9 +369,11 @@ class Check:
         audit_files = [audit_file] if isinstance(audit_file, str) else list(audit_file)
         if ok:
             thms, err = {}, None
+            n_parsed = 0            # audit entries, counted per file (the same short name may be audited in two files)
             for af in audit_files:
                 t, e = audit_axioms(af)
-                thms.update(t)
+                n_parsed += len(t)
+                thms.update({(k if k not in thms else f"{k} [{os.path.basename(af)}]"): v for k, v in t.items()})
                 if e:
                     err = (err or "") + f"{af}: {e}\n"
         self.theorems = thms
